@@ -1,13 +1,13 @@
 #!/bin/bash
 # tools/sweep.sh <tier> <seed>...   - runs every registered check at the given seeds, sequentially,
-# and prints one line per run; exit status 1 if any run did not exit 0.
+# and prints one line per run; exit status 1 if any run did not exit 0. SWEEP_IDS="C01 C02" restricts the checks.
 # Uses the directory it is started from as VERIF_DIR (so a `vp run` snapshot keeps its own evidence/.build).
 cd "$(dirname "$0")/.."
 export VERIF_DIR="$PWD"
 tier="$1"; shift
 bad=0
 for seed in "$@"; do
-  for id in C01 C02 C03 C04 C05 C06 C07 C08 C09 C10 C11 C12 C13 C14 C15 C16 C17 C18 C19 C20; do
+  for id in ${SWEEP_IDS:-C01 C02 C03 C04 C05 C06 C07 C08 C09 C10 C11 C12 C13 C14 C15 C16 C17 C18 C19 C20}; do
     t0=$(date +%s)
     out=$(VERIF_SEED=$seed ./run.sh $id $tier 2>&1); rc=$?
     t1=$(date +%s)
